@@ -253,6 +253,26 @@ def bin_rules(run, db):
     ev = [e for p in res for e in p.events if e['kind'] == 'reduce']
     ok = bool(ev) and all(dom.rat(x) == dom.rat(dom.integer('f')) for x in ev[0]['lengths']) and len(ev[0]['lengths']) == 2
     run.check(ok, 'C16.bin', f.qual, 'scalar factor', 'a scalar factor bins every axis', 'a scalar bin factor is not applied to every axis', f.loc())
+    # rank 3: every axis' factor takes part
+    s2, f2 = dom.integer('s2'), dom.integer('f2')
+    ft = db.func(D + 'tile')
+    res3 = [p for p in it.run(ft, kwargs=lambda: {'array': Shaped(Tup([s0, s1, s2]), 'array'), 'factor': Tup([f0, f1, f2]), 'scaling': Const('sum')}) if p.outcome == 'return']
+    ok3 = False
+    got3 = None
+    for p in res3:
+        if any(t is False and 'sf != 1' in c for c, t in p.conds):
+            continue
+        v = p.value
+        if isinstance(v, Shaped) and v.origin is not None and v.origin[0] == 'scale' and v.origin[1] == 'Mult':
+            got3 = dom.rat(v.origin[3])
+            ok3 = got3 is not None and got3 == 1 / (dom.rat(f0) * dom.rat(f1) * dom.rat(f2))
+    run.check(ok3, 'C16.bin', ft.qual, "tile scaling 'sum' rank 3", "for a rank-3 array the 'sum' scale is 1/(f0 f1 f2): the total is conserved on every axis",
+              "tile(scaling='sum') scales a rank-3 array by %s instead of 1/(f0 f1 f2): totals are not conserved when a leading axis is tiled" % (got3.key() if got3 is not None else 'nothing'), ft.loc())
+    fb = db.func(D + 'bindown')
+    r3 = [p for p in it.run(fb, kwargs=lambda: {'array': Shaped(Tup([s0, s1, s2]), 'array'), 'factor': Tup([f0, f1, f2]), 'mode': Const('sum')}) if p.outcome == 'return']
+    ev3 = [e for p in r3 for e in p.events if e['kind'] == 'reduce']
+    okb = len(ev3) == 1 and [dom.rat(x) for x in ev3[0]['lengths']] == [dom.rat(f0), dom.rat(f1), dom.rat(f2)]
+    run.check(okb, 'C16.bin', fb.qual, 'bindown rank 3', 'for a rank-3 array all three factor axes are reduced', 'bindown does not reduce all factor axes of a rank-3 array', fb.loc())
     f = db.func(D + 'tile')
     for scaling, want_sf in (('sum', 1 / (dom.rat(f0) * dom.rat(f1))), ('avg', None), ('average', None), ('mean', None)):
         res = [p for p in it.run(f, kwargs=lambda: {'array': Shaped(Tup([s0, s1]), 'array'), 'factor': Tup([f0, f1]), 'scaling': Const(scaling)}) if p.outcome == 'return']
